@@ -1285,9 +1285,44 @@ bool World::exec_table_op(const Step& s)
             if (!st.threw)
                 report("C18", "C18|set_" + std::string(c.name) + "|" + F + "|missing-row-silent", "setter on a nonexistent row returned normally");
         }
+        // the nonexistent id may well be *referenced*: a playlist entry naming a track id that has no row (the table API
+        // accepts it, Engine leaves such entries behind).  remove() must still report the missing row and touch nothing.
+        int64_t ref_list = 0;
+        if ((arg(2) & 1) && plan.cfg.profile.compare(0, 5, "table") == 0 && !atomic)
+        {
+            ref_list = pick(T.lists, arg(0));
+            if (ref_list)
+            {
+                v2::playlist_entity_row er{v2::PLAYLIST_ENTITY_ROW_ID_NONE, ref_list, id, T.uuid, 0, 0};
+                int64_t eid = 0;
+                Outcome ao = call(FaultSpec{}, [&] { eid = et.add_back(er); });
+                auto& mem = T.ents[ref_list];
+                if (!ao.threw && std::find(mem.begin(), mem.end(), id) == mem.end())
+                {
+                    mem.push_back(id);
+                    T.entrow[{ref_list, id}] = {eid, 0};
+                    probes.hit("t_missing_referenced_id");
+                }
+                else
+                    ref_list = 0;
+            }
+        }
         Outcome rm = call(FaultSpec{}, [&] { tt.remove(id); });
         if (!rm.threw)
             report("C18", "C18|remove|" + F + "|missing-row-silent", "remove() of a nonexistent row returned normally");
+        if (ref_list)
+        {
+            table_check("t_missing", 0);  // the entry that names the id is still there, nothing else moved
+            Outcome ro = call(FaultSpec{}, [&] { et.remove(ref_list, id); });
+            if (!ro.threw)
+            {
+                auto& mem = T.ents[ref_list];
+                mem.erase(std::remove(mem.begin(), mem.end(), id), mem.end());
+                mem.erase(std::remove(mem.begin(), mem.end(), -id), mem.end());
+                T.entrow.erase({ref_list, id});
+                T.entrow.erase({ref_list, -id});
+            }
+        }
         auto row = gen_row(s.vseed, 1, ++T.rowuniq, false);
         row.id = id;
         Outcome up = call(FaultSpec{}, [&] { tt.update(row); });
